@@ -328,9 +328,29 @@ func (g *Graph) condVertices() []int {
 			if _, ok := b.Nodes[len(b.Nodes)-1].(ast.Expr); ok {
 				out = append(out, g.off[i]+len(b.Nodes))
 			}
+		case cfg.KindSwitchCaseBody:
+			// a case of a tagless switch is a condition like any other (`switch { case a: … }` and `if a { … } else …` are
+			// the same decision); the first successor is the case body, the second the next case
+			if e, ok := b.Nodes[len(b.Nodes)-1].(ast.Expr); ok && g.taglessCase(b.Succs[0].Stmt, e) {
+				out = append(out, g.off[i]+len(b.Nodes))
+			}
 		}
 	}
 	return out
+}
+
+// taglessCase: e is the single expression of a case clause of a switch without tag.
+func (g *Graph) taglessCase(st ast.Stmt, e ast.Expr) bool {
+	cc, _ := st.(*ast.CaseClause)
+	if cc == nil || len(cc.List) != 1 || cc.List[0] != e {
+		return false
+	}
+	blk, ok := g.F.ParentOf(cc).(*ast.BlockStmt)
+	if !ok {
+		return false
+	}
+	sw, ok := g.F.ParentOf(blk).(*ast.SwitchStmt)
+	return ok && sw.Tag == nil
 }
 
 // GuardsAt returns the branch conditions (decomposed into atoms, with polarity) whose outcome edge
